@@ -41,3 +41,26 @@ Example C01_code_model_nonvacuous :
   (((1 <=? eff_window ex_u (length ex_s1) (length ex_s2))%Z && (psi_1b ex_u <? length ex_s1)%nat &&
    (L ex_u ex_s1 ex_s2 <? length ex_s2 + 1)%nat)%bool = true) /\ dist_model ex_u ex_s1 ex_s2 = Fin 2.
 Proof. vm_compute. split; reflexivity. Qed.
+
+(* dtw.distance AS REGENERATED.  Gen_pydist.v is the body of dtw.distance (everything after the dispatch to the C
+   engine) translated WHOLE by tools/pyfun.py: flat two-row buffer, per-row skip, cell update, sc / ec / ec_next /
+   smaller_found / break, psi prologue and scans, comparison with adj_max_dist; every subscript and assert is a
+   conjunct of the flag it returns next to the value.  With the settings object decoded as DTWSettings does
+   (adj_max_step, adj_penalty, window default = eff_window) and no bound, it returns the minimum over admissible
+   warping paths, and no subscript or assert fails.  `idist` is the inner-distance callable (any function that
+   agrees with the model's point distance on the index pairs of the two series), RSqrt v stands for result_fn(v). *)
+From DV Require Import DtwProps CLang PyDistGen.
+From DVGen Require Import Gen_pydist.
+
+Theorem C01_py_distance_as_written :
+  forall (u : usettings) (s1 s2 : list point) (idist : Z -> Z -> cost) (f1 f2 : list Z) ced mld mld_some,
+  (1 <= eff_window u (length s1) (length s2))%Z -> (1 <= length s1)%nat -> (1 <= length s2)%nat ->
+  (forall i j, (i < length s1)%nat -> (j < length s2)%nat ->
+     idist (Z.of_nat i) (Z.of_nat j) = Fin (pdist (u_inner u) (nth i s1 []) (nth j s2 []))) ->
+  pen_ok u -> (psi_1b u < length s1 \/ psi_2e u < length s2)%nat ->
+  py_distance ced idist f1 (Z.of_nat (length s1)) f2 (Z.of_nat (length s2)) false Inf mld mld_some (adj_max_step u) (Fin (adj_penalty u))
+              (Z.of_nat (psi_1b u)) (Z.of_nat (psi_1e u)) (Z.of_nat (psi_2b u)) (Z.of_nat (psi_2e u))
+              (eff_window u (length s1) (length s2)) =
+  ((if mld_some && cltb mld (Fin (Z.abs (Z.of_nat (length s1) - Z.of_nat (length s2)))) then RPlain Inf
+    else RSqrt (dtw_value u s1 s2)), true).
+Proof. exact py_distance_spec_unbounded. Qed.
